@@ -121,6 +121,11 @@ class EscapeAnalysis:
                 # handlers around the with body (the exception is thrown into the generator at the yield)
                 for item in n.items:
                     ce = item.context_expr
+                    # an instance of a repository class whose __exit__ / __aexit__ converts or swallows the exception
+                    # (`with self._json_errors:` / `with _Translate():` - `if isinstance(exc, X): raise Y` or `return True`)
+                    for xt in self._exit_handled_types(fn, ce):
+                        if xt in anc:
+                            return True
                     if not isinstance(ce, ast.Call):
                         continue
                     try:
@@ -143,6 +148,48 @@ class EscapeAnalysis:
             child = n
             n = getattr(n, "_parent", None)
         return False
+
+    def _exit_handled_types(self, fn: FuncInfo, ce: ast.expr) -> List[str]:
+        ctor = None
+        if isinstance(ce, ast.Call):
+            ctor = ce
+        elif isinstance(ce, ast.Name) and isinstance(fn.module.constants.get(ce.id), ast.Call):
+            ctor = fn.module.constants[ce.id]
+        elif isinstance(ce, ast.Attribute) and isinstance(ce.value, ast.Name) and ce.value.id in ("self", "cls"):
+            owner = self.p.enclosing_class(fn)
+            if owner is not None:
+                for c in self.p.mro(owner):
+                    if isinstance(c, ClassInfo) and isinstance(c.attrs.get(ce.attr), ast.Call):
+                        ctor = c.attrs[ce.attr]
+                        break
+        if ctor is None:
+            return []
+        try:
+            ci = self.p.resolve_call(fn, ctor)
+        except Exception:
+            ci = None
+        if not isinstance(ci, ClassInfo):
+            # a class attribute / module constant is resolved in the module that defines it
+            nm = ast.unparse(ctor.func).split(".")[-1]
+            ci = next((c for m in self.p.modules.values() for c in m.classes.values() if c.name == nm), None)
+        if not isinstance(ci, ClassInfo):
+            return []
+        out: List[str] = []
+        for mname in ("__exit__", "__aexit__"):
+            ex = self.p.find_method(ci, mname)
+            if ex is None:
+                continue
+            for n in ast.walk(ex.node):
+                if isinstance(n, ast.If):
+                    converts = any(isinstance(x, ast.Raise) or (isinstance(x, ast.Return) and isinstance(x.value, ast.Constant) and x.value.value is True) for st in n.body for x in ast.walk(st))
+                    if not converts:
+                        continue
+                    for c in ast.walk(n.test):
+                        if isinstance(c, ast.Call) and isinstance(c.func, ast.Name) and c.func.id in ("isinstance", "issubclass") and len(c.args) == 2:
+                            types = c.args[1].elts if isinstance(c.args[1], ast.Tuple) else [c.args[1]]
+                            for t in types:
+                                out.append(self._type_name(ex, t))
+        return out
 
     def local_types(self, fn: FuncInfo) -> Dict[str, ClassInfo]:
         out: Dict[str, ClassInfo] = {}
@@ -386,6 +433,12 @@ class EscapeAnalysis:
                     add(call, "LookupError", f"bytes.decode(<client-chosen codec>): an unknown charset name raises LookupError (codec from {sorted(T(codec))})", "fact", ctext)
                     if not lenient:
                         add(call, "UnicodeDecodeError", f"bytes.decode(<client-chosen codec>) of client bytes raises UnicodeDecodeError for most codecs (data from {sorted(recv_t)})", "fact", ctext)
+                elif not lenient and codec is not None and not isinstance(codec, ast.Constant):
+                    # a codec that is computed at run time and not traced to client data by the taint analysis (it went through a helper /
+                    # an adapter object): not a known total codec - presumed client-chosen, the same operation as above
+                    ctext = f"{ast.unparse(f.value)}.decode(<client-chosen codec>)"
+                    add(call, "UnicodeDecodeError", f"bytes.decode(<client-chosen codec>) of client bytes raises UnicodeDecodeError for most codecs (codec `{ast.unparse(codec)[:40].replace('(', '<').replace(')', '>')}` "
+                                                    f"not a constant: presumed client-chosen; data from {sorted(recv_t)})", "fact", ctext)
                 elif not lenient and not (isinstance(codec, ast.Constant) and str(codec.value).lower() in TOTAL_CODECS):
                     cn = codec.value if isinstance(codec, ast.Constant) else "utf-8"
                     add(call, "UnicodeDecodeError", f"bytes.decode({cn!r}) of client bytes is not total (data from {sorted(recv_t)})", "fact")
@@ -479,6 +532,42 @@ class EscapeAnalysis:
             self.fact_points += 1
             add(node, "ValueError", f"unpacking {ast.unparse(v)[:60]} into {n} names: client text without the separator yields fewer parts (ValueError)", "fact")
 
+    def _total_mapping(self, fn: FuncInfo, name: ast.Name, key: str) -> bool:
+        """`name[key]` cannot raise KeyError because of what `name` is bound from in this function: a regular-expression match object
+        (a named group always exists: m["key"] is None when it did not take part), or a ChainMap / dict display / `dict(k=...)` whose
+        literal part provides the key."""
+        from .common import _assigned_values
+        defs = _assigned_values(fn, name.id)
+        loop_iters = [n.iter for n in ast.walk(fn.node) if isinstance(n, (ast.For, ast.AsyncFor, ast.comprehension)) and any(isinstance(t, ast.Name) and t.id == name.id for t in ast.walk(n.target))]
+        srcs = defs + loop_iters
+        if not srcs:
+            return False
+
+        def total(e: ast.expr) -> bool:
+            if isinstance(e, ast.Call):
+                fname = e.func.attr if isinstance(e.func, ast.Attribute) else (e.func.id if isinstance(e.func, ast.Name) else "")
+                if fname in ("finditer", "match", "fullmatch", "search"):
+                    return True  # (an `if m is None` is the caller's business: a None would raise TypeError, not KeyError)
+                if isinstance(e.func, ast.Name) and e.func.id in self._compiled_finders(fn):
+                    return True
+                if fname == "ChainMap":
+                    return any(total_literal(a) for a in e.args)
+                if fname == "dict":
+                    return any(k.arg == key for k in e.keywords)
+            return total_literal(e)
+
+        def total_literal(e: ast.expr) -> bool:
+            return isinstance(e, ast.Dict) and any(isinstance(k, ast.Constant) and k.value == key for k in e.keys)
+        return all(total(x) for x in srcs)
+
+    def _compiled_finders(self, fn: FuncInfo):
+        """module-level names bound to `<compiled regex>.finditer` / `.match` ... (`_scan = re.compile(..).finditer`)"""
+        out = set()
+        for nm, ex in fn.module.constants.items():
+            if isinstance(ex, ast.Attribute) and ex.attr in ("finditer", "match", "fullmatch", "search"):
+                out.add(nm)
+        return out
+
     def _facts_subscript(self, fn: FuncInfo, node: ast.Subscript, T, add) -> None:
         # dict-literal / module-constant dict indexed by a client-derived key
         base = node.value
@@ -491,6 +580,8 @@ class EscapeAnalysis:
             # guarantees; recognised by provenance, not by what the local is called
             gateway = isinstance(root, ast.Name) and root.id in ("scope", "environ") and root.id in fn.params or ast.unparse(base) in ("self._scope", "self._environ", "self") \
                 or all(o == "receive()" for o in T(base))
+            if not gateway and isinstance(base, ast.Name) and self._total_mapping(fn, base, node.slice.value):
+                return
             if not gateway:
                 key = node.slice.value
                 bt = ast.unparse(base)
